@@ -14,7 +14,8 @@
 //! datum in the witness set) `dropaux` `auxflip` (auxiliary data), `maxex=<mem>:<steps>` `costmut=<k>` (one number of the cost
 //! model of language k changed: only the script-integrity hash notices) `incoin=<i>:<n>` (lovelace of the UTxO entry of input i).
 //! Synth body options also: `mint` (5 tokens minted under a native-script policy, script and signature supplied) and
-//! `mintnoscript` (the same without the policy script), `req` / `reqnosig` (Alonzo+: a required signer with / without its key witness).
+//! `mintnoscript` (the same without the policy script), `coll` (Alonzo+: a collateral input, no Plutus script), `ref` (Babbage+: a reference
+//! input); options combine (`sy:babbage:ref:mint`), `req` / `reqnosig` (Alonzo+: a required signer with / without its key witness).
 //! `colpaid=<pct>:<paid>` (collateral percentage and the coin of collateral input 0 set so that the paid collateral is exactly <paid>).
 //! More mutators: `redmut` (mem + 1 in the first redeemer's execution units: only the script-integrity hash notices), `indatum=<i>` (an inline
 //! datum on the UTxO entry of key-locked input i) and `refbyron=<i>` (reference input i's UTxO entry re-addressed to a Byron address): only
@@ -74,10 +75,13 @@ fn build_synth(spec: &[&str]) -> Option<Fixture> {
     let minting = (opt("mint").is_some() || opt("mintnoscript").is_some()) && era != Era::Shelley;
     let req = (opt("req").is_some() || opt("reqnosig").is_some()) && matches!(era, Era::Alonzo | Era::Babbage | Era::Conway);
     let req_signed = req && opt("req").is_some();
+    // structural variants: a collateral field (Alonzo+; no Plutus script, so the collateral rules stay off) and a reference input (Babbage+)
+    let coll = opt("coll").is_some() && matches!(era, Era::Alonzo | Era::Babbage | Era::Conway);
+    let refin = opt("ref").is_some() && post;
     let policy = synth::policy_id(&synth::key(150));
     let outnet: u8 = opt("outnet").and_then(|v| v.parse().ok()).unwrap_or(network);
     let mut b = Encoder::new(Vec::new());
-    b.map(3 + ttl.is_some() as u64 + start.is_some() as u64 + netid.is_some() as u64 + aux_hash.is_some() as u64 + minting as u64 + req as u64).unwrap();
+    b.map(3 + ttl.is_some() as u64 + start.is_some() as u64 + netid.is_some() as u64 + aux_hash.is_some() as u64 + minting as u64 + req as u64 + coll as u64 + refin as u64).unwrap();
     b.u8(0).unwrap();
     if conway { b.tag(Tag::new(258)).unwrap(); }
     b.array(nin as u64).unwrap();
@@ -93,8 +97,10 @@ fn build_synth(spec: &[&str]) -> Option<Fixture> {
     if let Some(h) = &aux_hash { b.u8(7).unwrap().bytes(h).unwrap(); }
     if let Some(s) = start { b.u8(8).unwrap().u64(s).unwrap(); }
     if minting { b.u8(9).unwrap().map(1).unwrap().bytes(policy.as_ref()).unwrap().map(1).unwrap().bytes(&[0x54]).unwrap().u64(5).unwrap(); }
+    if coll { b.u8(13).unwrap(); if conway { b.tag(Tag::new(258)).unwrap(); } b.array(1).unwrap().array(2).unwrap().bytes(&[0xc0; 32]).unwrap().u8(0).unwrap(); }
     if req { b.u8(14).unwrap(); if conway { b.tag(Tag::new(258)).unwrap(); } b.array(1).unwrap().bytes(Hasher::<224>::hash(&synth::key(160).pk).as_ref()).unwrap(); }
     if let Some(n) = netid { b.u8(15).unwrap().u8(n).unwrap(); }
+    if refin { b.u8(18).unwrap(); if conway { b.tag(Tag::new(258)).unwrap(); } b.array(1).unwrap().array(2).unwrap().bytes(&[0xd0; 32]).unwrap().u8(0).unwrap(); }
     let body = b.into_writer();
     let txid = Hasher::<256>::hash(&body);
     let mut w = Encoder::new(Vec::new());
@@ -113,6 +119,15 @@ fn build_synth(spec: &[&str]) -> Option<Fixture> {
         if post { oe.map(2).unwrap().u8(0).unwrap().bytes(&addr).unwrap().u8(1).unwrap().u64(10_000_000).unwrap(); } else { oe.array(2).unwrap().bytes(&addr).unwrap().u64(10_000_000).unwrap(); }
         UtxoEntry { input: InputRef::Post(synth::input_ref(i)), era: if post { era } else { Era::Alonzo }, cbor: oe.into_writer() }
     }).collect();
+    for (on, id, seed, coin) in [(coll, 0xc0u8, 100u8, 5_000_000u64), (refin, 0xd0, 200, 2_000_000)] {
+        if !on { continue; }
+        let mut oe = Encoder::new(Vec::new());
+        let addr = synth::key_address(network, &synth::key(seed));
+        if post { oe.map(2).unwrap().u8(0).unwrap().bytes(&addr).unwrap().u8(1).unwrap().u64(coin).unwrap(); } else { oe.array(2).unwrap().bytes(&addr).unwrap().u64(coin).unwrap(); }
+        let mut inp = synth::input_ref(0);
+        inp.transaction_id = [id; 32].into();
+        f.utxo.push(UtxoEntry { input: InputRef::Post(inp), era: if post { era } else { Era::Alonzo }, cbor: oe.into_writer() });
+    }
     Some(f)
 }
 
@@ -827,6 +842,28 @@ fn mutators_for(g: &mut Gen, b: &str) -> Vec<String> {
     m
 }
 
+/// one mutator per rule that breaks that rule alone (for the structural variants)
+fn breaking_mutators(b: &str) -> Vec<String> {
+    let Some(f) = base(b) else { return vec![] };
+    let Some(v) = view(&f) else { return vec![] };
+    let mut m = vec![];
+    for i in 0..v.nin.min(2) { m.push(format!("dropin={i}")); }
+    if let Some(c) = &v.col { for i in 0..c.len().min(2) { m.push(format!("dropcol={i}")); } }
+    for i in 0..v.refs.len().min(2) { m.push(format!("dropref={i}")); }
+    if let Some(t) = v.ttl { m.push(format!("slot={}", t.saturating_add(1))); }
+    if let Some(s) = v.start { if s > 0 { m.push(format!("slot={}", s - 1)); } }
+    m.push(format!("envnet={}", 1 - v.envnet.min(1)));
+    m.push(format!("maxsize={}", v.size.saturating_sub(1)));
+    { let b = v.fee as i128 + 1 - (v.a * v.size) as i128; if b >= 0 && b <= u32::MAX as i128 { m.push(format!("minfee={}:{b}", v.a)); } }
+    m.push("coins=100000000".into());
+    if !matches!(f.era, Era::Shelley | Era::Allegra | Era::Mary) { m.push("maxval=0".into()); }
+    m.push("dropwit=0".into());
+    m.push("dropwit=1".into());
+    if v.aux { m.push("dropaux".into()); m.push("auxflip".into()); }
+    m.push("incoin=0:1234567".into());
+    m
+}
+
 pub fn generate(g: &mut Gen) {
     let prev = std::panic::take_hook();
     std::panic::set_hook(Box::new(|info| eprintln!("rules generator panicked: {info}")));
@@ -841,11 +878,23 @@ fn generate_inner(g: &mut Gen) {
         bases.push(format!("sy:{era}"));
         for o in ["ins0", "nottl", "ttl=5", "start=999999999999", "netid=0", "netid=1", "outnet=0", "outcoin=100", "outcoin=999999", "auxhash", "aux", "auxbad", "mint", "mintnoscript", "req", "reqnosig"] { bases.push(format!("sy:{era}:{o}")); }
     }
+    // structural variants: every combination of the optional fields a rule's code branches on (collateral x reference inputs),
+    // the other optional fields alone and all together; on each of them every rule is broken alone by one mutator
+    let mut variants: Vec<String> = vec![];
+    for era in ["shelley", "mary", "alonzo", "babbage", "conway"] {
+        for o in ["coll", "ref", "coll:ref", "coll:ref:mint", "coll:ref:aux", "ref:mint", "ref:aux", "ref:nottl", "ref:start=1", "nottl:start=1", "coll:ref:mint:aux:start=1", "coll:nottl", "mint:aux"] {
+            if matches!(era, "shelley" | "mary") && (o.contains("coll") || o.contains("ref") || o.contains("nottl")) { continue; }
+            if era == "alonzo" && o.contains("ref") { continue; }
+            variants.push(format!("sy:{era}:{o}"));
+        }
+    }
+    bases.extend(variants.iter().cloned());
     // every base unmutated and with each of its single mutators (this part is exhaustive and seed-independent)
     let mut all_single: Vec<Vec<String>> = vec![];
     for b in &bases {
         all_single.push(vec![b.clone()]);
         if b.starts_with("fx:") || b.matches(':').count() == 1 { for m in mutators_for(g, b) { all_single.push(vec![b.clone(), m]); } }
+        else if variants.contains(b) { for m in breaking_mutators(b) { all_single.push(vec![b.clone(), m]); } }
     }
     let per_case = 6;
     for chunk in all_single.chunks(per_case) { let ops: Vec<String> = chunk.iter().filter_map(|t| op_line(t)).collect(); if !ops.is_empty() { g.case(ops); } }
